@@ -63,6 +63,9 @@ func genUserMethods(r *RNG) *uCase {
 		probes  []int    // index in def of each param probe
 		okLine  int
 		failLn  int
+		// index in def of the probe after a parameter was assigned (0 = none)
+		reassignProbe int
+		reassignClass string
 		retSelf int // index of param the result passes through (-1)
 	}
 	var ms []*meth
@@ -226,6 +229,19 @@ func genUserMethods(r *RNG) *uCase {
 			m.def = append(m.def, "  "+m.params[0].Name+".to_s")
 			feats["ok-op"] = true
 		}
+		// a parameter (not the first: the operations below use that one) is assigned
+		// in the body: from there on it has the assigned class; the signature keeps
+		// what the call sites pass
+		reassigned, reassignedClass := -1, ""
+		if len(m.params) > 1 && r.Chance(1, 4) {
+			reassigned = 1 + r.Intn(len(m.params)-1)
+			reassignedClass = Pick(r, scal)
+			m.def = append(m.def, "  "+m.params[reassigned].Name+" = "+nLit(reassignedClass))
+			m.reassignProbe = len(m.def)
+			m.reassignClass = reassignedClass
+			m.def = append(m.def, "  dbtp "+m.params[reassigned].Name)
+			feats["param-reassigned"] = true
+		}
 		var ret []string
 		if r.Chance(1, 4) {
 			m.hasFail = true
@@ -248,7 +264,11 @@ func genUserMethods(r *RNG) *uCase {
 			case 1:
 				pi := r.Intn(len(m.params))
 				m.def = append(m.def, "  "+m.params[pi].Name)
-				ret = append(ret, m.params[pi].Want...)
+				if pi == reassigned {
+					ret = append(ret, reassignedClass)
+				} else {
+					ret = append(ret, m.params[pi].Want...)
+				}
 				feats["returns-param"] = true
 			default:
 				m.def = append(m.def, "  "+m.params[0].Name+".to_s")
@@ -311,6 +331,9 @@ func genUserMethods(r *RNG) *uCase {
 		uc.Expects = append(uc.Expects, uExpect{Row: base, Kind: "sig", What: "signature of " + m.name, Meth: mi})
 		for k, pi := range m.probes {
 			uc.Expects = append(uc.Expects, uExpect{Row: base + pi, Kind: "param", Want: m.params[k].Want, What: "parameter " + m.params[k].Name + " of " + m.name})
+		}
+		if m.reassignProbe > 0 {
+			uc.Expects = append(uc.Expects, uExpect{Row: base + m.reassignProbe, Kind: "ret", Want: []string{m.reassignClass}, What: "parameter of " + m.name + " after an assignment in the body"})
 		}
 		if m.okLine >= 0 {
 			uc.Expects = append(uc.Expects, uExpect{Row: base + m.okLine, Kind: "noerr", What: "operation every argument class answers, in " + m.name})
